@@ -324,8 +324,16 @@ func (o *oracles) secondLife(dir string, st1 *manager.VerifState, v1 *ViewSig, w
 				continue
 			}
 			conv := s.plan.Converters[n%len(s.plan.Converters)]
+			ran := len(o.vconvLog())
 			r := s.call(CView, Op{K: "StreamData", V: 900, Stream: sl.ID, Conv: conv})
 			s.settle()
+			if len(o.vconvLog()) == ran {
+				// answered from the cache: nothing was stored now (output cached before
+				// the kill for an older version of a stream whose extension became visible
+				// without its import ever completing is not invalidated by anything; no
+				// listed property speaks about converter output across a kill, DESIGN §8.4)
+				continue
+			}
 			if r.Err == "" && r.Found {
 				converted[fmt.Sprintf("%s/%d", conv, sl.ID)] = sl.Digest
 				n++
